@@ -13,7 +13,8 @@ if REPO_SRC not in sys.path:
     sys.path.insert(0, REPO_SRC)
 
 import logging  # noqa: E402
-logging.disable(logging.CRITICAL)
+import common as _common  # noqa: E402
+_common.quiet_debug_logging()
 
 
 class InertThread:
